@@ -119,9 +119,23 @@ func TestVerif_C09_h2dialshare(t *testing.T) {
 			ctx, cancel := context.WithCancel(context.Background())
 			js = append(js, start(ctx, cancel))
 		}
-		dmu.Lock()
-		nd := len(dials)
-		dmu.Unlock()
+		// the dial goroutine registers itself in `dials` a moment after GetClientConn has released
+		// the pool mutex: wait for it (under machine load `dials[0]` below was reached first —
+		// harness panic "index out of range" in the thorough tier, r5)
+		nd := 0
+		for dl := time.Now().Add(3 * time.Second); ; {
+			dmu.Lock()
+			nd = len(dials)
+			dmu.Unlock()
+			if nd >= 1 || time.Now().After(dl) {
+				break
+			}
+			time.Sleep(50 * time.Microsecond)
+		}
+		if nd == 0 {
+			s.Observe(fmt.Sprintf("h2dialshare-%d", cs), false, "", false, human, "no dial was started within 3 s")
+			continue
+		}
 		joined := nd == 1
 		for i, c := range js {
 			if selfCancel[i] {
